@@ -62,7 +62,7 @@ CLAIMED = {
    note="Time-based notification trimming is node-local by design and disabled (1h retention) in these runs; the C03 schedules add the same dump comparison under elections.",
    technique="differential replay: dump-and-compare across application routes"),
  "C07": dict(engine="repl", level="fault_enumeration",
-   text="On an RF=1 leader under 1..8 concurrent writers with explicit flushes, a crash image (Pebble checkpoint = durable state without memtable + copy of the WAL directory, taken while the goroutine at the crash point is held) is produced at every hit of the apply/term hooks (evenly thinned to <= 60 per scenario). Every image is opened raw (commit offset within its log; dump == fresh DB folded over its log [0..c]) and through the real restart path (replay starts at c+1, applied offsets consecutive, final dump == fold of the whole image log). Online: applied offsets consecutive on every database instance (also in the C03 schedules with followers).",
+   text="On an RF=1 leader under 1..8 concurrent writers with explicit flushes, a crash image (Pebble checkpoint = durable state without memtable + copy of the WAL directory, taken while the goroutine at the crash point is held) is produced at every hit of the apply/term hooks (evenly thinned to <= 60 per scenario). Every image is opened raw (commit offset within its log; dump == fresh DB folded over its log [0..c]) and through the real restart path (replay starts at c+1, applied offsets consecutive, final dump == fold of the whole image log). Online: applied offsets consecutive on every database instance (also in the C03 schedules with followers). A second part runs three nodes: a follower that catches up several entries in one round and is crashed to its flushed image at a seeded moment, and an election that is abandoned before its quorum while the node holds an uncommitted tail; stored commit offsets must stay within the node's log and within what some leader committed, nothing uncommitted may be applied, and replicas at the same applied offset must hold the same dump.",
    note="The fold uses the same ProcessWrite; skipped, doubled or reordered application changes version ids and modification counts and shows in the dumps. Crash points inside Pebble's own flush are not enumerated (images whose two copies straddle a flush are discarded and counted).",
    technique="crash-point fault injection at hooks + recovery oracle (state == fold of the log)"),
  "C05": dict(engine="coord", level="fault_enumeration",
